@@ -1,7 +1,7 @@
 (* C13 - The stored program matches the entered lines after any edit history.
    Only statements, `exact`, Print Assumptions and non-vacuity examples here.
 
-   model/Program.v      executable model of program.py (with the repairs fixes/D13a, fixes/D13b)
+   model/Program.v      executable model of program.py (with the repair fixes/D13b)
    model/ProgramSpec.v  the reference: a sorted finite map line number -> tokenised body, its memory image
                         (lay/image), its index, and the meaning of each command on it (spec_step)
    abs_ok c s ls tail = the invariant WF: state s stores exactly the lines ls.
